@@ -148,7 +148,102 @@ def check_config(cfg, w, rep):
         if o.name in ("write", "poll_write") and o.impl_trait and strip_refs(o.impl_self or "") in ("put::SyncWriter", "put::Writer"):
             n_cnt += 1
             check_counter(cfg, w, rep, lf)
+        elif o.impl_trait and strip_refs(o.impl_self or "") in ("put::SyncWriter", "put::Writer") and \
+                re.search(r"(^|::)(std::io::Write|\w*AsyncWrite)$", o.impl_trait):
+            # every OTHER method of the keyed writers' Write / AsyncWrite impl: if it hands data to the inner writer
+            # (an overridden write_vectored / write_all / poll_write_vectored ...) it bypasses the byte counter that the
+            # declared-size check and the recorded size rely on
+            for blk, t in lf.body.calls():
+                if t.callee is not None and re.search(r"(Write|AsyncWrite|AsyncWriteExt)>?::(write|write_all|write_vectored|write_all_vectored|write_fmt|poll_write|poll_write_vectored)$", t.callee.path):
+                    rep.violation("c-bypass:%s" % fn_key(lf),
+                                  "`%s` forwards data to the inner writer (`%s`) without going through the counting write: those bytes are stored "
+                                  "and hashed but not counted — the declared-size check and the recorded size would be wrong" % (
+                                      short(lf.path), t.callee.path.rsplit("::", 1)[-1]), loc=span_str(t.span), config=cfg, rule="c-counter")
     rep.floor("counter_sites", n_cnt, 2 if is_async else 1, cfg)
+
+    # ---- (h) "subsequent reads by that key return exactly the bytes written": a read by key resolves the key through the
+    #      lookup, which must select the most recent record of the key (the lookup clauses of C05 b, re-checked here) ----
+    from ..framework import Report
+    from . import c05
+    from .c01 import find_fns
+    sub = Report("C05")
+    for p_ in sorted(find_fns(w)):
+        c05.check_find(cfg, w, sub, prog.fns[p_])
+    for (c_, rule, k, desc, ok) in sub.obligations:
+        if ok:
+            rep.ob(cfg, "h/" + rule, k, desc)
+    for k, v in sub.violations.items():
+        rep.violation("h:%s" % k, "a read by key could return an earlier write's data — " + v.msg, loc=v.loc, config=cfg,
+                      rule="h/" + (v.rule or ""), witness=v.witness)
+
+    # ---- (i) the async writer never loses its staged file on a path that reports success: once the poll functions have
+    #      taken the Inner (temp file, mapping, digest builder) out of the shared state, every return that is not an error
+    #      is reached only after the state has been re-assigned (Busy(task owning it) / Idle(Some(it))) ----
+    n_take = 0
+    for lf in prog.fns.values():
+        if strip_refs(lf.outer.impl_self or "") != "content::write::AsyncWriter":
+            continue
+        body = lf.body
+        cf = prog.cfg(body)
+        takes = [(blk, t) for blk, t in body.calls() if t.callee is not None and t.callee.path == "std::option::Option::<T>::take"
+                 and "write::Inner" in (t.callee.self_ty or "") + " ".join(t.callee.args or [])]
+        if not takes:
+            continue
+        assigns = {b.i for b in body.blocks if not b.cleanup for st in b.stmts
+                   if st.k == "assign" and st.rv.k == "agg" and st.rv.j.get("path", "").endswith("write::State")}
+        # moving it into the blocking closure that is then stored also counts (the store is the State::Busy aggregate)
+        rds = [rd for rd in ret_defs(prog, body) if rd.cls in ("success", "unknown", "delegated")]
+        for blk, t in takes:
+            n_take += 1
+
+            def is_take(o, t=t):
+                return o.kind == "call" and o.term is t and not o.path
+            # where the taken value is held: after `take().unwrap()`, or on the Some arm of a match on the take's result
+            # (value flow looks *through* take(), so the result is followed by place: the call's destination local)
+            starts = set()
+            dl = t.dest.local if t.dest is not None else None
+
+            def from_take(op):
+                seen = 0
+                cur = op.place
+                while cur is not None and seen < 4:
+                    if cur.local == dl:
+                        return True
+                    defs = [st for b_ in body.blocks if not b_.cleanup for st in b_.stmts
+                            if st.k == "assign" and st.place.local == cur.local and not norm_path(st.place)]
+                    if len(defs) == 1 and defs[0].rv.k == "use" and defs[0].rv.ops[0].place is not None:
+                        cur = defs[0].rv.ops[0].place
+                        seen += 1
+                    else:
+                        break
+                return False
+            for bb, tt in body.calls():
+                if tt.callee is not None and tt.callee.path in ("std::option::Option::<T>::unwrap", "std::option::Option::<T>::expect"):
+                    if tt.args and from_take(tt.args[0]):
+                        starts.add(bb.i)
+            for bb in body.blocks:
+                tu = bb.term
+                if bb.cleanup or tu.k != "switch" or tu.discr.place is None:
+                    continue
+                for st in bb.stmts:
+                    if st.k == "assign" and st.rv.k == "discr" and st.rv.place is not None and st.rv.place.local == dl \
+                            and st.place.local == tu.discr.place.local:
+                        starts.add(switch_target(tu, VIDX["Some"]))
+            reach = set()
+            for st_ in starts:
+                reach |= cf.reachable(st_, cut_nodes=assigns)
+            bad = [rd for rd in rds if rd.blk in reach]
+            key = fn_key(lf)
+            if bad or not starts:
+                rep.violation("i-state:%s" % key,
+                              "`%s` can return without an error after taking the writer's inner state out of the shared slot and before putting "
+                              "it back (return at %s): the staged temp file, mapping and digest are dropped and every later write or commit fails "
+                              "with 'file closed'" % (short(lf.path), blk_loc(body, bad[0].blk) if bad else "?"),
+                              loc=blk_loc(body, bad[0].blk) if bad else span_str(t.span), config=cfg, rule="i-state-kept")
+            else:
+                rep.ob(cfg, "i-state-kept", "%s@%d" % (key, n_take), "after take() in `%s` every non-error return passes a re-assignment of the state" % short(lf.path))
+    if is_async:
+        rep.floor("state_takes", n_take, 3, cfg)
 
     # ---- (d) published under CONTENT_PATH(cache, builder.result()); the commit indexes that integrity (or the declared one) ----
     for e in w.inv.effects:
